@@ -37,7 +37,7 @@ def generate(seed, run, tier):
     rec['debug'] = r.random() < 0.5
     big = tier == 'thorough'
     spec = common.pick_client(r, p_yaml=0.25, hmax=8 if big else 6, wmax=8 if big else 6, n_pool=5)
-    if spec['kind'] == 'hand' and 'Door' in spec['types']:
+    if spec['kind'] == 'hand' and spec.get('world') is not None and 'Door' in spec['types']:
         from gvsim.props.c10 import plant_door_scene
 
         for wv in [spec['world']] + spec['pool_worlds']:
@@ -197,7 +197,7 @@ def execute(record, ctx):
     if ctx.ticks >= 10 and nd > 0:
         ctx.distinct.add(ctx.trace_digest())
     cl = record['clients'][0]
-    ctx.sample = {'client': {'yaml': cl['yaml']} if cl['kind'] == 'yaml' else {'rewards': cl['rewards'], 'term': cl['term'], 'chain': cl['chain']},
+    ctx.sample = {'client': {'yaml': cl['yaml']} if cl['kind'] == 'yaml' else {'rewards': cl['rewards'], 'term': cl['term'], 'chain': cl['chain'], 'reset': (cl.get('reset') or {}).get('name')},
                   'ops_head': record['ops'][:10], 'n_ops': len(record['ops'])}
 
 
